@@ -1,4 +1,5 @@
-"""C19, code -> spec: recorder for Samples.burnthin / funvals / vector / parameters / compute_rhat events.
+"""C19, code -> spec: recorder for Samples.burnthin / funvals / vector / parameters / compute_rhat events; data layouts of the
+stored chain (`in_layout`: the realisation of the dimension `lay` of SamplesOps.tla, shared with props/c19.py).
 
 Every event carries a FRAME record: was the receiver (sample bytes, flags, geometry) the same after the call, and - for
 compute_rhat - the length of the caller's list of chains before / after, whether it holds the same objects in the same order
@@ -12,6 +13,43 @@ import json, os
 from numbers import Integral
 
 import numpy as np
+
+# ---- data layouts of a stored chain (dimension `lay` of SamplesOps.tla): HOW the values are held, never WHICH values -------------
+LAYOUTS = ("f64", "i64", "i32", "f32", "fortran", "strided", "readonly", "i32sr", "f32f")
+LAYOUT_DTYPE = {"f64": np.float64, "i64": np.int64, "i32": np.int32, "f32": np.float32, "fortran": np.float64, "strided": np.float64,
+                "readonly": np.float64, "i32sr": np.int32, "f32f": np.float32}
+INT_LAYOUTS = ("i64", "i32", "i32sr")
+F32_LAYOUTS = ("f32", "f32f")
+READONLY_LAYOUTS = ("readonly", "i32sr")
+FILLER = -777            # what the columns of the wider array hold that are NOT part of a strided chain
+
+
+def representable(values, lay):
+    """the values are held exactly by the number type of the layout"""
+    A = np.asarray(values, dtype=np.float64)
+    return bool(np.array_equal(A.astype(LAYOUT_DTYPE[lay]).astype(np.float64), A))
+
+
+def in_layout(values, lay):
+    """a NEW array holding exactly `values` (last axis = sample axis) in the data layout `lay`"""
+    A = np.asarray(values, dtype=np.float64)
+    if lay not in LAYOUT_DTYPE:
+        raise ValueError("unknown data layout %r" % (lay,))
+    dt = LAYOUT_DTYPE[lay]
+    if not representable(A, lay):
+        raise ValueError("values are not exactly representable in layout %r" % (lay,))
+    if lay in ("strided", "i32sr"):
+        big = np.full(A.shape[:-1] + (2 * A.shape[-1],), FILLER, dtype=dt)
+        big[..., ::2] = A
+        out = big[..., ::2]                  # non-contiguous view; out.base is the wider array
+    elif lay in ("fortran", "f32f"):
+        out = np.asfortranarray(A.astype(dt))
+    else:
+        out = np.array(A, dtype=dt, order="C")
+    if lay in READONLY_LAYOUTS:
+        out.flags.writeable = False
+    return out
+
 
 EVENTS = []
 SKIPPED = {"non_array": 0, "out_of_domain": 0, "duplicate_columns": 0}
@@ -186,7 +224,10 @@ def random_driver(seed, rounds):
             d = 2; geom = G.StepExpansion(np.linspace(0, 1, 4), n_steps=2)
         else:
             d = int(rng.randint(1, 4)); geom = None
-        s = Samples(rng.standard_normal((d, N)), geometry=geom)
+        # the stored chain in a seeded data layout (integer-valued chains for the integer layouts)
+        lay = LAYOUTS[int(rng.randint(len(LAYOUTS)))] if rng.randint(3) == 0 else "f64"
+        vals = rng.standard_normal((d, N)) if lay not in INT_LAYOUTS + F32_LAYOUTS else np.round(rng.standard_normal((d, N)) * 1.0e5)
+        s = Samples(in_layout(vals, lay), geometry=geom)
         others = None
         for _step in range(4):
             r = rng.randint(7)
@@ -197,8 +238,8 @@ def random_driver(seed, rounds):
                         # R-hat against one list of 1..3 chains of the same shape, the SAME list object for two calls
                         # (and a single Samples argument); shapes that arviz refuses are recorded as refusals
                         if others is None or others[0].samples.shape != s.samples.shape or N > 40:
-                            others = [Samples(rng.standard_normal(s.samples.shape), geometry=s.geometry, is_par=s.is_par, is_vec=s.is_vec)
-                                      for _k in range(int(rng.randint(1, 4)))]
+                            others = [Samples(in_layout(np.round(rng.standard_normal(s.samples.shape) * 1.0e5), lay), geometry=s.geometry,
+                                              is_par=s.is_par, is_vec=s.is_vec) for _k in range(int(rng.randint(1, 4)))]
                         if N <= 40:
                             s.compute_rhat(others)
                             s.compute_rhat(others)
